@@ -15,7 +15,7 @@
    it"): `eos_ok r` - in every concatenation `a b` with a `$` inside `a`, `b` can match
    the empty sequence.  It is needed: C18_eos_hypothesis_needed. *)
 From Coq Require Import ZArith List Bool.
-From VC2 Require Import Model.Regex Model.NFA Model.Matcher Proofs.NFAProofs Proofs.MatcherProofs.
+From VC2 Require Import Model.Regex Model.NFA Model.Matcher Proofs.RegexProofs Proofs.NFAProofs Proofs.MatcherProofs.
 Import ListNotations.
 
 (* Thompson construction: the paths start -> final of NFA.from_ast(r) spell exactly
@@ -82,6 +82,16 @@ Theorem C18_eos_hypothesis_needed :
   exists r m, eos_ok r = false /\ feed Directed r [] = Some m /\ is_complete m = true /\ ~ lang r [].
 Proof. exact eos_hypothesis_needed. Qed.
 
+(* string-level syntax (token level): the parser model never runs out of fuel, and the
+   fully parenthesised printed form of EVERY AST parses back to an AST with the same
+   language (identical up to `x ()` = x, which parse_expression cannot represent) *)
+Theorem C18_parse_fuel_enough : forall toks : list token, parse_regex toks <> inl EFuel.
+Proof. exact parse_fuel_enough. Qed.
+
+Theorem C18_parse_print : forall r : re,
+  exists r', parse_regex (print r) = inr r' /\ forall w, lang r' w <-> lang r w.
+Proof. exact parse_print_lang. Qed.
+
 (* non-vacuity: the level 1-7 shape  h ( p-star | f-star ) e  (h=1 p=2 f=3 e=4): the repaired
    Matcher rejects a picture followed by a fragment, accepts and completes h p p e *)
 Open Scope Z_scope.
@@ -94,3 +104,12 @@ Example C18_example :
   /\ option_map (fun m => map (fun l => match l with LSym s => s | LAny => 0 | LEos => (-1) end) (valid_next m))
                 (feed Directed r [1; 2]) = Some [2; 4].
 Proof. vm_compute. repeat split; discriminate. Qed.
+
+(* `+` is r r*, `?` is r | (), modifiers bind tightest, `|` loosest, parsed right to left *)
+Example C18_parse_example :
+  parse_regex [TStr 1; TMod MPlus; TStr 2; TMod MQuest; TBar; TStr 3; TStr 4; TBar; TLP; TStr 1; TStr 2; TRP; TMod MStar; TDollar]
+  = inr (Alt (Alt (Cat (Cat (Sym 1) (Star (Sym 1))) (Alt (Sym 2) Empty)) (Cat (Sym 3) (Sym 4)))
+             (Cat (Star (Cat (Sym 1) (Sym 2))) Eos))
+  /\ parse_regex [TStr 1; TMod MStar; TMod MStar] = inl EMultipleModifiers
+  /\ parse_regex [TLP; TStr 1] = inl EUnmatched.
+Proof. vm_compute. repeat split. Qed.
